@@ -37,14 +37,13 @@ func (c *char) initTalent() {
 }
 
 var talentHitSplit = []float64{0.15, 0.15, 0.15, 0.15, 0.15, 0.25}
-var talentTargs = []key.TargetID{}
 
 func (c *char) talentTrigger(e event.AttackEnd) {
 	isAlly := c.engine.IsCharacter(e.Attacker)
 	isBasicAtk := e.AttackType == model.AttackType_NORMAL
 	isNotKafka := e.Attacker != c.id
 	if isAlly && isBasicAtk && isNotKafka && c.canUseTalent {
-		talentTargs = e.Targets
+		c.talentTargs = e.Targets
 	}
 }
 
@@ -52,7 +51,11 @@ func (c *char) talentAttack(e event.ActionEnd) {
 	isAlly := c.engine.IsCharacter(e.Owner)
 	isBasicAtk := e.AttackType == model.AttackType_NORMAL
 	isNotKafka := e.Owner != c.id
-	target := talentTargs[0]
+	// no ally basic attack has been seen yet
+	if len(c.talentTargs) == 0 {
+		return
+	}
+	target := c.talentTargs[0]
 
 	if c.info.Eidolon >= 1 {
 		c.engine.AddModifier(target, info.Modifier{
